@@ -386,6 +386,17 @@ def r4(ctx):
                           facts={"guards": [repr(x) for x in fa]})
     if n == 0:
         raise ShapeError("no store of a received window size found")
+    # the sender follows the window of EVERY ack (the receiver may shrink it): the store must not depend on what is already stored
+    for cname, mname in (("ClientSSM", "segmented_request"), ("ServerSSM", "segmented_response")):
+        c = prog.cls(MOD, cname)
+        f = c.methods[mname]
+        apdu = f.args.args[1].arg
+        sts = [st for tgt, st in attr_stores(f, "actualWindowSize") if isinstance(st, ast.Assign) and norm(st.value) == "%s.apduWin" % apdu]
+        first = sts[0] if sts else None
+        latched = [repr(z) for z in facts_at(first)] if first is not None else []
+        ok = first is not None and not any("actualWindowSize" in z for z in latched) and any(("%s.apduType == SegmentAckPDU.pduType" % apdu, True) == tp or "SegmentAckPDU" in tp[0] for tp in atom_texts(facts_at(first)))
+        ctx.check("%s.%s:window-follows-every-ack" % (cname, mname), ok, where(c.module, first if first is not None else f),
+                  "the window announced in a segment-ack must be adopted for every ack (guards found: %s): a receiver that shrinks its window is otherwise overrun" % latched)
     window_agreement(ctx)
     # own proposal is a legal window
     sm = prog.cls(MOD, "StateMachineAccessPoint")
